@@ -1,6 +1,8 @@
 package arrow_record
 
 import (
+	"bytes"
+
 	"go.opentelemetry.io/collector/pdata/pcommon"
 	"go.opentelemetry.io/collector/pdata/ptrace"
 	"go.opentelemetry.io/otel/metric/noop"
@@ -242,9 +244,16 @@ func verifRoundTrip(p *Producer, c *Consumer, td ptrace.Traces, tag string) {
 	orig := ptrace.NewTraces()
 	td.CopyTo(orig)
 	rt.WatchBegin("input", td)
-	h0 := rt.WatchHits()
+	h0 := rt.WatchChangedTag("input")
 	bar, err := p.BatchArrowRecordsFromTraces(td)
-	rt.Assert(rt.WatchHits() == h0, "C15.frame_input.traces_untouched")
+	// the engine decides the frame condition on its store instructions; the compiled harness (replay) compares
+	// the serialisation of the input with that of the copy taken before the call
+	same := rt.NativeCheck(func() bool {
+		x, e1 := (&ptrace.ProtoMarshaler{}).MarshalTraces(td)
+		y, e2 := (&ptrace.ProtoMarshaler{}).MarshalTraces(orig)
+		return e1 == nil && e2 == nil && bytes.Equal(x, y)
+	})
+	rt.Assert(rt.WatchChangedTag("input") == h0 && same, "C15.frame_input.traces_untouched")
 	rt.WatchEndTag("input")
 	rt.Assert(err == nil, tag+".encode_ok")
 	if err != nil {
